@@ -40,7 +40,7 @@ def verify_function(key: str, budget_ms: int = 8000) -> dict:
                 mustfail.append(st)
                 rec["status"] = "guard-ok" if st != "proved" else "proved"
             out["obligations"].append(rec)
-        if c.get("mustfail") is not None:
+        if mustfail:
             out["mustfail_guard"] = "ok" if any(x != "proved" for x in mustfail) else "ENGINE-UNSOUND"
         out["assumptions"] = sorted(vc.assumptions | proj.model.used)
         out["solve_s"] = round(time.time() - t0 - out["gen_s"], 3)
